@@ -103,6 +103,16 @@ add("C20", MC,
     "Trusted: refimpl::qpack (self-tested on RFC 9204 App. B). Bounds: BFS depth 5 (quick) / 7 (thorough); 6 sections over 3 names x 2 values. Both tables start at the configured capacity.",
     "explicit-state BFS with canonical-state deduplication over the implementation's own transition functions (history replay), reference-model oracle per state; deviation-bounded DFS for the long workload", "bfs", "DESIGN.md 5/C20")
 
+add("C10", MC,
+    "Complete enumeration of a boundary grid on the running connection code (both roles over simnet against a scripted peer): field-section limits {0, 1, 33..35, 64, 89, 100, 167, 16383, 2^62-1} x sections whose RFC 9114 4.2.2 size sweeps L-2..L+2 (stretched value and added field, so the per-field 32 is exercised) x the four receive paths (request/response head, request/response trailers) and the four send paths x SETTINGS delivered before / after / never. Every HEADERS frame that reaches the wire is decoded and measured by the reference; on receive the outcome (accepted / HeaderTooBig / 431) is compared with the reference size rule.",
+    "Trusted: refimpl::fields::section_size, refimpl::qpack. Exhaustive over the stated grid; sizes far from a limit are represented by the L+-2 sweep only.",
+    "exhaustive bounded enumeration (limits x sizes x paths x settings timing) of the running implementation against a reference size rule", "enumeration", "DESIGN.md 5/C10")
+
+add("C17", MC,
+    "The UNMODIFIED h3-quinn source compiled against fakequinn, an API stand-in for quinn whose every answer is an explorer choice: every poll_write answer sequence (accept all / 1 / half / n-1 bytes, Pending, and one fault Stopped(c) / ConnectionLost(kind) / ClosedStream from the k-th call on) and every read_chunk answer sequence with at most k deviations, for frame sequences up to 3 frames (+ one 256 KiB frame), framed and unframed writes, uni and bidi streams, an overlapping send_data after every send_data, every operation sequence of length <= 3 over {poll_data, recv_id, stop_sending} before the drain (identifier queries in every read state incl. while a read is pending), all 8 ConnectionError variants x 3 codes on all accept/open/datagram paths, close(code, reason), datagram bytes. Oracle: bytes Quinn saw = reference encoding of the buffers whose write completed, ids constant and equal to Quinn's, no panic, error class and code preserved.",
+    "Trusted: fakequinn models the quinn 0.11 API subset the adapter uses (a rewrite using other Quinn calls fails to build = machinery failure, exit 2, not a verdict). Real Quinn's flow control is represented by the answer alphabet, not executed. Bounds: k=4 (quick) / 6 (thorough).",
+    "stateless DFS with deviation bounding over the environment-answer sequences (Quinn stand-in) of the unmodified adapter code; reference-encoding and error-table oracle", "dfs", "DESIGN.md 5/C17")
+
 ALL = [f"C{i:02d}" for i in range(1, 21)]
 pending_reason = "check not built yet in this revision of /verif (planned, see DESIGN.md section 5)"
 manifest = dict(
